@@ -774,6 +774,11 @@ func (server *Server) registerCoreExecutors() {
 		opt.MINEXCLUSIVE = minEx
 		opt.MAXEXCLUSIVE = maxEx
 
+		// LIMIT applies to the descending sequence: get the whole score range,
+		// reverse it and then apply the offset and count.
+		offset, count := opt.Offset, opt.Count
+		opt.Offset, opt.Count = 0, -1
+
 		msg, err := server.userCommandHandler.ZRangeByScore(conn, key, min, max, opt)
 		if err != nil {
 			return msg, err
@@ -784,10 +789,11 @@ func (server *Server) registerCoreExecutors() {
 			return msg, err
 		}
 
+		step := 1
 		if opt.WITHSCORES {
-			return NewArrayMessageWithArray(array.ReverseBy(2)), nil
+			step = 2
 		}
-		return NewArrayMessageWithArray(array.Reverse()), nil
+		return NewArrayMessageWithArray(limitArrayBy(array.ReverseBy(step), step, offset, count)), nil
 	})
 
 	server.RegisterExexutor("ZREM", func(conn *Conn, cmd string, args Arguments) (*Message, error) {
@@ -813,4 +819,27 @@ func (server *Server) registerCoreExecutors() {
 		}
 		return server.userCommandHandler.ZScore(conn, key, member)
 	})
+}
+
+// limitArrayBy returns the groups of step messages selected by a LIMIT offset
+// and count (a negative count selects all groups after the offset).
+func limitArrayBy(array *proto.Array, step int, offset int, count int) *proto.Array {
+	limited := proto.NewArray()
+	if offset < 0 {
+		return limited
+	}
+	msgs, err := array.NextMessages()
+	if err != nil {
+		return limited
+	}
+	groupCnt := len(msgs) / step
+	for n := offset; n < groupCnt; n++ {
+		if 0 <= count && count <= (n-offset) {
+			break
+		}
+		for i := 0; i < step; i++ {
+			limited.Append(msgs[(n*step)+i])
+		}
+	}
+	return limited
 }
